@@ -20,7 +20,7 @@ class Seams:
 
     def __enter__(self):
         log = self.log
-        self._saved = {n: getattr(_crypto, "_" + "_" + n) for n in ("AES128", "PublicEccKey", "PrivateEccKey", "random_bytes")}
+        self._saved = current_backends()
         RealPriv, real_rng = _plug.PrivateEccKeyProxy, _plug.random_bytes
 
         forced = self.forced = []          # chosen ephemeral scalars (input selection for C09), consumed first
@@ -64,6 +64,24 @@ class Seams:
         return out
 
 
+def current_backends():
+    """The four registered back ends, found through the public interface where it offers a way (the registry variables are private
+    to bec2format.crypto and a refactoring may rename them): the class of a cipher object it creates; for the others the private
+    variable when it exists and otherwise what the plug-in registers on import."""
+    d = vars(_crypto)
+    out = {"AES128": d.get("_" + "_AES128"), "PublicEccKey": d.get("_" + "_PublicEccKey"),
+           "PrivateEccKey": d.get("_" + "_PrivateEccKey"), "random_bytes": d.get("_" + "_random_bytes")}
+    try:
+        out["AES128"] = type(_crypto.create_AES128(bytes(16)))
+    except Exception:                                              # noqa
+        pass
+    for n, default in (("AES128", _plug.AES128Proxy), ("PublicEccKey", _plug.PublicEccKeyProxy),
+                       ("PrivateEccKey", _plug.PrivateEccKeyProxy), ("random_bytes", _plug.random_bytes)):
+        if out[n] is None:
+            out[n] = default
+    return out
+
+
 def _freeze(v, depth=0):
     if isinstance(v, dict):
         return ("d", tuple(sorted(((repr(k), _freeze(x, depth + 1)) for k, x in v.items()))))
@@ -81,7 +99,14 @@ def registry_snapshot():
     class-level mutable container of the bec2format package (tables such as HWCID_MAP / REV_HWCID_MAP / BF2_TAGTYPE_MAP,
     default key tables, class maps, caches somebody might add)."""
     import sys as _sys
-    snap = [tuple(id(getattr(_crypto, "_" + "_" + n)) for n in ("AES128", "PublicEccKey", "PrivateEccKey", "random_bytes"))]
+    # (the registry is private to bec2format.crypto and may be laid out in any way: whatever private module attribute holds a
+    #  class or a function is taken by identity, containers by content below)
+    snap = [tuple((a, id(v)) for a, v in sorted(vars(_crypto).items())
+                  if a.startswith("_") and not (a.startswith("__") and a.endswith("__")) and (isinstance(v, type) or callable(v)))]
+    try:
+        snap.append(("aes-backend", id(type(_crypto.create_AES128(bytes(16))))))
+    except Exception:                                              # noqa: a back end that refuses the probe key is still a back end
+        pass
     for name in sorted(m for m in _sys.modules if m == "bec2format" or m.startswith("bec2format.")):
         mod = _sys.modules[name]
         for attr in sorted(vars(mod)):
